@@ -3,10 +3,10 @@
 use vstd::prelude::*;
 use std::{marker::PhantomData, ops::RangeFrom};
 verus! {
-//@ default-tags C10
+//@ default-tags C10,C01
 //@ verus-flags --rlimit 60
-//@ compile-run C10,C15 table_wf\(TLDList\) checker says: true
-//@ compile-run C10 rules of public_suffix_list.dat in the table: true
+//@ compile-run C10,C15,C01 table_wf\(TLDList\) checker says: true
+//@ compile-run C10,C01 rules of public_suffix_list.dat in the table: true
 //@ include ../_common/str_prelude.rs
 //@ source types public-suffix/src/types.rs
 //@ source psl public-suffix/src/lib.rs
